@@ -144,11 +144,19 @@ def mk_keydoor(H, W):
         sx.check(key.color is door.color, 'keydoor-key-matches-door')
         sx.check(1 <= dx <= W - 2 and 1 <= dy <= H - 2, 'keydoor-door-inside')
         col = [st.grid.objects[y][dx] for y in range(1, H - 1)]
-        sx.check(all(isinstance(o, Wall) or o is door for o in col), 'keydoor-door-in-full-height-wall-column', repr(col))
-        sx.check(kx < dx and px < dx, 'keydoor-key-and-agent-on-near-side', f'door x={dx} key x={kx} agent x={px}')
-        sx.check(ex > dx, 'keydoor-exit-beyond-the-wall')
+        row = [st.grid.objects[dy][x] for x in range(1, W - 1)]
+        vertical = all(isinstance(o, Wall) or o is door for o in col)
+        horizontal = all(isinstance(o, Wall) or o is door for o in row)
+        sx.check(vertical or horizontal, 'keydoor-door-in-a-dividing-wall', repr(col))
+        # the statement fixes no orientation or side: key and agent on one side of the dividing wall, the exit on the other
+        side = (lambda y, x: x < dx) if vertical else (lambda y, x: y < dy)
+        on_wall = (lambda y, x: x == dx) if vertical else (lambda y, x: y == dy)
+        sx.check(not on_wall(ky, kx) and not on_wall(py, px) and side(ky, kx) == side(py, px), 'keydoor-key-and-agent-on-the-same-side',
+                 f'door {(dy, dx)} key {(ky, kx)} agent {(py, px)}')
+        sx.check(not on_wall(ey, ex) and side(ey, ex) != side(ky, kx), 'keydoor-exit-beyond-the-wall')
         # nothing else is in the way: all remaining interior cells are floor
-        sx.check(inv['Wall'] == 2 * H + 2 * W - 4 + (H - 2) - 1 and inv['Floor'] == H * W - inv['Wall'] - 3, 'keydoor-rest-is-floor', str(dict(inv)))
+        wall_len = (H - 2) if vertical else (W - 2)
+        sx.check(inv['Wall'] == 2 * H + 2 * W - 4 + wall_len - 1 and inv['Floor'] == H * W - inv['Wall'] - 3, 'keydoor-rest-is-floor', str(dict(inv)))
     return h
 
 
@@ -162,7 +170,6 @@ def mk_crossing(H, W):
         py, px = common(sx, st, H, W, 'crossing')
         inv = inventory(st)
         sx.check(inv['Exit'] == 1, 'crossing-one-exit', str(dict(inv)))
-        sx.check(isinstance(st.grid.objects[H - 2][W - 2], Exit), 'crossing-exit-bottom-right')
         sx.check(set(inv) <= {'Wall', 'Floor', 'Exit', 'MovingObstacle'}, 'crossing-object-types')
         sx.check(int(n) >= 1, 'crossing-nonpositive-rivers-accepted')
     return h
@@ -193,7 +200,9 @@ def colour_sets(sx, which):
 def memory_inventory(sx, st, lab, num_exits, num_beacons):
     exits = [o for _, o in cells(st) if isinstance(o, Exit)]
     beacons = [o for _, o in cells(st) if isinstance(o, Beacon)]
-    sx.check(len(exits) == num_exits, lab + '-number-of-exits', f'{len(exits)} != {num_exits}')
+    if num_exits is not None:
+        sx.check(len(exits) == num_exits, lab + '-number-of-exits', f'{len(exits)} != {num_exits}')
+    sx.check(len(exits) >= 2, lab + '-has-exits')
     if num_beacons is not None:
         sx.check(len(beacons) == num_beacons, lab + '-number-of-beacons', f'{len(beacons)} != {num_beacons}')
     sx.check(len(beacons) >= 1, lab + '-has-a-beacon')
@@ -211,7 +220,7 @@ def mk_memory(H, W, which):
         if st is None:
             return
         common(sx, st, H, W, 'memory')
-        memory_inventory(sx, st, 'memory', 2, 2)
+        memory_inventory(sx, st, 'memory', None, None)
         sx.check(all(e.color in cs for _, e in cells(st) if isinstance(e, (Exit, Beacon))), 'memory-colours-from-the-requested-set')
     return h
 
@@ -292,7 +301,7 @@ def obligations(tier):
         import itertools
         for pv in itertools.product([1, 2, 3], [5, 6, 7], [1, 2, 3], [5, 6, 7]):
             add(f'rooms-9x9-layout2x2-passages{"".join(map(str, pv))}', mk_rooms(9, 9, [2], preset=dict(enumerate(pv))),
-                dict(H=9, W=9, layouts='2x2', passage_draws=list(pv)), must_produce('rooms'))
+                dict(H=9, W=9, layouts='2x2', passage_draws=list(pv)))
     for (H, W) in [(3, 3), (3, 4), (4, 4)]:
         add(f'memory_rooms-{H}x{W}-1x1', mk_memory_rooms(H, W, (1, 1), (0, 2), (1, 3)), dict(H=H, W=W, layout=[1, 1], num_beacons='0..2', num_exits='1..3'))
     for (H, W, lay) in [(4, 5, (1, 1)), (4, 5, (1, 2)), (5, 4, (2, 1)), (4, 4, (0, 1)), (4, 4, (1, 3))] + ([] if q else [(5, 5, (1, 1)), (5, 5, (2, 2))]):
